@@ -369,7 +369,11 @@ class Negative(Term):
         self.term = self.term.replace_table(current_table, new_table)
 
     def get_sql(self, ctx: SqlContext) -> str:
-        return "-{term}".format(term=self.term.get_sql(ctx.copy(with_alias=False)))
+        term_sql = self.term.get_sql(ctx.copy(with_alias=False))
+        if term_sql.startswith("-"):
+            # two adjacent minus signs would open a comment
+            term_sql = "({})".format(term_sql)
+        return "-{term}".format(term=term_sql)
 
 
 class ValueWrapper(Term):
@@ -1222,14 +1226,18 @@ class ArithmeticExpression(Term):
         left_op, right_op = [getattr(side, "operator", None) for side in [self.left, self.right]]
         operand_ctx = ctx.copy(with_alias=False)
 
+        left_sql = ("({})" if self.left_needs_parens(self.operator, left_op) else "{}").format(
+            self.left.get_sql(operand_ctx)
+        )
+        right_sql = ("({})" if self.right_needs_parens(self.operator, right_op) else "{}").format(
+            self.right.get_sql(operand_ctx)
+        )
+        if self.operator == Arithmetic.sub and right_sql.startswith("-"):
+            # two adjacent minus signs would open a comment
+            right_sql = "({})".format(right_sql)
+
         arithmetic_sql = "{left}{operator}{right}".format(
-            operator=self.operator.value,
-            left=("({})" if self.left_needs_parens(self.operator, left_op) else "{}").format(
-                self.left.get_sql(operand_ctx)
-            ),
-            right=("({})" if self.right_needs_parens(self.operator, right_op) else "{}").format(
-                self.right.get_sql(operand_ctx)
-            ),
+            operator=self.operator.value, left=left_sql, right=right_sql
         )
 
         if ctx.with_alias:
